@@ -468,3 +468,8 @@ m('c07-r5-stepwise-tryfrom-rescales-acc', 'C07', 'C07-R5', 'taiko:acc', (
 m('c18-r2-closure-dispatch-drops-od', 'C18', 'C18-R2', 'od:Taiko', (
     'src/any/performance/mod.rs', "            |t| t.od(od, with_mods),", "            |t| t,"),
   diff='selftest/refactor_diffs/C17-r16.diff')
+# seeds of round 6 (paths the default suite never takes)
+m('c04-r4-slot-moved-out', 'C04', 'C04-R4', 'slot:', diff='selftest/seed_diffs/C01-6.diff')
+m('c04-r5-default-attributes-early-exit', 'C04', 'C04-R5', 'entry:any::difficulty::Difficulty::calculate', diff='selftest/seed_diffs/C04-6.diff')
+m('c17-r6-default-attributes-early-exit', 'C17', 'C17-R6', 'entry:osu::difficulty::difficulty', diff='selftest/seed_diffs/C17-6.diff')
+m('c10-r5-raw-clone-drops-zeros', 'C10', 'C10-R5', 'clone:raw_strains', diff='selftest/seed_diffs/C02-6.diff')
